@@ -15,7 +15,7 @@ RULE = (
     "bounded-exhaustive: every pair (old divisions, new divisions) over the ordered domain {0..D} (D=6 quick, 7 thorough; strictly increasing "
     "vectors, optionally with a repeated last value) sharing end points, x 3 data fillings (every value once / twice / sparse with empty partitions) "
     "x index kind (int; float,str,datetime rotated in quick, all in thorough); forced extensions (force=True, wider end points); invalid requests "
-    "(end points differ without force, narrower with force, unknown divisions) must raise ValueError; count grid (n_in,n_out)<=10/14 x known/unknown divisions; "
+    "(end points differ without force, narrower with force, unknown divisions) must raise ValueError; count grid (n_in,n_out)<=10/14 x known/unknown divisions + every float-rounding-sensitive pair up to 48/100; partition_size over equal and uneven partition shapes; "
     "partition_size and freq variants. Oracle: output rids == input rids in order; reported divisions == request and each partition within [b_i,b_i+1) "
     "(last closed); reported npartitions == computed (<= request for counts). non-trivial = old != new and a new boundary falls strictly inside an old "
     "partition or on a value present in the data; distinct by (old,new,filling,kind)"
